@@ -4,6 +4,7 @@ CONSTANTS
   Streams = {"t1","t2"}
   Sizes = {0}
   Limits = {1}
+  Iters = {}
   DefaultMax = 10485760
 CONSTRAINT LMark
 INVARIANTS Accounting SuffixRetained NoPanic
